@@ -48,7 +48,7 @@ def tlc_parallel(jobs, workers_each):
 
     def one(i):
         try:
-            res[i] = run_tlc(jobs[i][0], jobs[i][1], workers=workers_each, timeout=1500, heap="6g")
+            res[i] = run_tlc(jobs[i][0], jobs[i][1], workers=workers_each, timeout=1500, heap="3g")
         except Exception as e:  # noqa
             err.append(e)
 
@@ -133,6 +133,7 @@ def sample_shapes(shapes, target, seed):
             uniq.append(s)
     bnd = [s for s in uniq if s.get("boundary")]
     rest = [s for s in uniq if not s.get("boundary")]
+    bnd.sort(key=lambda s: json.dumps(s["fields"], sort_keys=True))     # TLC's workers print in any order
     rest.sort(key=lambda s: json.dumps(s["fields"], sort_keys=True))
     rnd = random.Random(seed)
     k = max(0, target - len(bnd))
@@ -174,16 +175,17 @@ def c03_configs(tier):
              maxfields=3, maxdepth=2, maxtotal=4, modulus=10),
         dict(name="names", leaf=["int8", "int16"], emb=["val", "ptr"], names="pool", tags="none", maxfields=3, maxdepth=3,
              maxtotal=4, modulus=8),
-        dict(name="tags", leaf=["int8", "int16"], emb=["val", "ptr"], names="pos", tags="all", maxfields=3, maxdepth=3,
-             maxtotal=4, modulus=300),
+        dict(name="tags", leaf=["int8"], emb=["val", "ptr"], names="pos", tags="all", maxfields=3, maxdepth=3,
+             maxtotal=4, modulus=150),
         dict(name="named", leaf=["int8", "int64"], emb=["val", "ptr"], named=True, names="pos", maxfields=3, maxdepth=3, maxsub=2,
              maxtotal=5, modulus=40),
     ]
 
 
-def enumerate_shapes(run, module, configs, invariants, label):
-    """One TLC run per configuration (MC invariants + Emit); returns the printed shapes."""
-    jobs = [(module, shape_cfg(c, run.seed, invariants), c["name"], c) for c in configs]
+def enumerate_shapes(run, module, configs, invariants, label, extra_jobs=()):
+    """One TLC run per configuration (MC invariants + Emit), all in parallel together with `extra_jobs` (further
+    model-checking runs that print nothing); returns the printed shapes."""
+    jobs = [(module, shape_cfg(c, run.seed, invariants), c["name"], c) for c in configs] + list(extra_jobs)
     res = tlc_parallel(jobs, max(2, common.NCPU // max(1, len(jobs))))
     shapes, total = [], 0
     for (mod, _, name, c), r in zip(jobs, res):
@@ -191,6 +193,8 @@ def enumerate_shapes(run, module, configs, invariants, label):
             raise Infra("model error: %s violates %s in configuration %s\n%s" % (mod, r.violated, name, r.out[-3000:]))
         consts = {k: v for k, v in c.items() if k != "extra"}
         run.add_mc("%s/%s" % (mod, name), r, consts)
+        if mod != module:
+            continue
         got = r.json_prints("shape")
         for s in got:
             s["cfg"] = name
@@ -236,6 +240,14 @@ def check_c03(run, shapes=None):
         run.sample({"shape": G.render_struct(s["fields"]), "listing": [[e["key"], e["id"], e["ty"], e["abs"]] for e in s["listing"]]})
 
 
+def describe(s):
+    if s is None:
+        return "?"
+    if "fields" in s:
+        return "type T " + G.render_struct(s["fields"])
+    return "type S %s; type T %s" % (G.render_struct(s["S"]["fields"]), G.render_struct(s["T"]["fields"]))
+
+
 def collect(run, pkg, p, recs, byid, stats, libword):
     """Folds the records written by one harness binary into the run."""
     got_stats = False
@@ -248,10 +260,10 @@ def collect(run, pkg, p, recs, byid, stats, libword):
                     stats[k] = stats.get(k, 0) + v
         elif t == "infra":
             s = byid.get(r.get("sid"))
-            raise Infra("harness: %s (shape %s)" % (r.get("what"), G.render_struct(s["fields"]) if s else r.get("sid")))
+            raise Infra("harness: %s (%s)" % (r.get("what"), describe(s)))
         elif t == "drift":
             s = byid.get(r.get("sid"))
-            run.drift.append("%s on %s" % (r.get("what"), G.render_struct(s["fields"]) if s else r.get("sid")))
+            run.drift.append("%s on %s" % (r.get("what"), describe(s)))
         elif t == "pviol":
             s = byid.get(r["sid"])
             sig = {"kind": r["kind"]}
@@ -261,11 +273,16 @@ def collect(run, pkg, p, recs, byid, stats, libword):
                 continue
             q = r.get("req")
             if q:
-                how = "%s%d[%s](%s)" % ("ForProduct" if r.get("api") == "product" else "ForSpectrum", len(q["types"]),
+                how = "%s%d[%s](%s)" % ({"product": "ForProduct", "spectrum": "ForSpectrum", "shape": "ForShape", "bimap": "BiMapX/ForProduct"}.get(r.get("api"), "ForProduct"), len(q["types"]),
                                         ", ".join([q["cont"]] + q["types"]), ", ".join('"%s"' % n for n in q["names"]))
+            elif r.get("optic"):
+                o = r["optic"]
+                how = "%s %s %s" % (o["kind"], o.get("nest") or o.get("conv") or "", json.dumps(o["links"] or o["names"]))
+            elif "list" in r:
+                how = "Morphism over isos %s%s" % (r["list"], " (struct <-> map)" if r.get("map") else "")
             else:
                 how = "%s %s" % (r.get("api", ""), json.dumps(r.get("q", "")))
-            what = "%s: %s on `type T %s`: %s" % (r["kind"], how, G.render_struct(s["fields"]), r.get("detail", ""))
+            what = "%s: %s on `%s`: %s" % (r["kind"], how, describe(s), r.get("detail", ""))
             run.violation(sig, what, {"property": run.pid, "tier": run.tier, "shape": s, "finding": r})
     if p.returncode != 0 or not got_stats:
         raise Infra("generated harness %s died (rc=%s):\n%s" % (pkg, p.returncode, (p.stdout + p.stderr)[-3000:]))
@@ -289,9 +306,9 @@ def optics_configs(tier, prop):
         ]
     return [
         dict(name="layout", leaf=["int8", "int32", "int64", "struct{}"], emb=["val", "ptr"], names="pos", maxfields=3, maxdepth=3,
-             maxtotal=6, boundary=True, modulus=40),
+             maxtotal=6, boundary=True, modulus=25),
         dict(name="palette", leaf=["bool", "int16", "string", "[0]int64", "[3]int8", "[]byte", "any", "*int"], emb=emb, names="uniq",
-             maxfields=3, maxdepth=2, maxtotal=4, modulus=40),
+             maxfields=3, maxdepth=2, maxtotal=4, modulus=25),
         dict(name="names", leaf=["int8", "int16"], emb=["val", "ptr"], names="pool", tags="all", maxfields=3, maxdepth=3,
              maxtotal=3, modulus=100),
         dict(name="named", leaf=["int8", "int64"], emb=["val", "ptr"], named=True, names="pos", maxfields=3, maxdepth=3, maxsub=2,
@@ -304,7 +321,7 @@ def check_optics(run, shapes=None):
     thorough = run.tier == "thorough"
     inv = ["C01_LensExact", "Emit"] if prop == "C01" else ["C02_Sound", "C02_SoundRepaired", "Emit"]
     if shapes is None:
-        shapes = enumerate_shapes(run, "OpticsGen", optics_configs(run.tier, prop), inv, prop)
+        shapes = enumerate_shapes(run, "OpticsGen", optics_configs(run.tier, prop), inv, prop, extra_jobs=[memory_model(run)])
         shapes = sample_shapes(shapes, 3000 if thorough else 300, run.seed)
         if prop == "C02":
             model_defect(run)
@@ -351,6 +368,30 @@ def check_optics(run, shapes=None):
         run.sample({"shape": G.render_struct(s["fields"]), "request": q[0] if q else None})
 
 
+MEM_CFG = """CONSTANTS
+  LeafTypes = {%s}
+  EmbKinds = {"val", "ptr"}
+  NamedStructs = FALSE
+  NameMode = "pos"
+  TagMode = "none"
+  MaxFields = 2
+  MaxDepth = 2
+  MaxSub = 1
+  MaxTotal = %d
+  TypePrefix = ""
+SPECIFICATION MSpec
+INVARIANT MemExact
+INVARIANT NoTornCell
+CHECK_DEADLOCK FALSE
+"""
+
+
+def memory_model(run):
+    """Optics as a transition system over the abstract byte memory: every Put / Get / Putt / Gett on small shapes."""
+    leaf, tot = ('"int8", "int32", "struct{}"', 3) if run.tier == "quick" else ('"int8", "int16", "int64", "struct{}"', 3)
+    return ("OpticsMemMC", MEM_CFG % (leaf, tot), "memory", {"leaf": leaf, "maxtotal": tot, "maxfields": 2, "maxdepth": 2})
+
+
 def model_defect(run):
     """Documents (never judges) what TLC says about the unrepaired derivation: the two invariants are expected to fail."""
     c = dict(name="defect", leaf=["int8", "string"], emb=["val", "ptr"], names="pos", maxfields=2, maxdepth=3, maxtotal=3, modulus=1000000)
@@ -359,15 +400,123 @@ def model_defect(run):
         run.notes["tlc_on_unrepaired_" + inv] = ("violated after %d shapes (expected: the unrepaired derivation is unsound)" % r.distinct) if r.violated else "holds"
 
 
+# ----------------------------------------------------------------------------------------------- C04
+COMPOSE_CONSTS = """CONSTANTS
+  LeafTypes = {%(leaf)s}
+  EmbKinds = {"val"}
+  NamedStructs = TRUE
+  NameMode = "%(names)s"
+  TagMode = "none"
+  MaxFields = %(maxfields)d
+  MaxDepth = %(maxdepth)d
+  MaxSub = %(maxsub)d
+  MaxTotal = %(maxtotal)d
+  MaxFieldsT = %(maxfieldst)d
+  MaxDepthT = %(maxdeptht)d
+  MaxTotalT = %(maxtotalt)d
+  MaxIsos = %(maxisos)d
+  WithBoundary = %(boundary)s
+  Seed = %(seed)d
+  Modulus = %(modulus)d
+SPECIFICATION Spec
+INVARIANT C04_Single
+INVARIANT C04_Pair
+INVARIANT Emit
+CHECK_DEADLOCK FALSE
+"""
+
+
+def c04_configs(tier):
+    if tier == "quick":
+        return [
+            dict(name="nested", leaf=["int8", "int64"], names="pos", maxfields=2, maxdepth=3, maxsub=1, maxtotal=4, maxfieldst=2, maxdeptht=2,
+                 maxtotalt=2, maxisos=3, boundary=True, modulus=60),
+            dict(name="flat", leaf=["bool", "int16", "string"], names="uniq", maxfields=3, maxdepth=2, maxsub=1, maxtotal=3, maxfieldst=2,
+                 maxdeptht=1, maxtotalt=2, maxisos=3, boundary=False, modulus=40),
+        ]
+    return [
+        dict(name="nested", leaf=["int8", "int64"], names="pos", maxfields=2, maxdepth=3, maxsub=2, maxtotal=5, maxfieldst=2, maxdeptht=2,
+             maxtotalt=2, maxisos=3, boundary=True, modulus=100),
+        dict(name="flat", leaf=["bool", "int16", "string", "[]byte"], names="uniq", maxfields=3, maxdepth=2, maxsub=1, maxtotal=4, maxfieldst=2,
+             maxdeptht=1, maxtotalt=2, maxisos=3, boundary=False, modulus=150),
+    ]
+
+
+def check_c04(run, cases=None):
+    thorough = run.tier == "thorough"
+    if cases is None:
+        jobs = []
+        for c in c04_configs(run.tier):
+            d = dict(c, leaf=", ".join('"%s"' % t for t in c["leaf"]), boundary="TRUE" if c["boundary"] else "FALSE", seed=run.seed)
+            jobs.append(("OpticsComposeGen", COMPOSE_CONSTS % d, c["name"], c))
+        res = tlc_parallel(jobs, max(2, common.NCPU // len(jobs)))
+        cases, total = [], 0
+        for (mod, _, name, c), r in zip(jobs, res):
+            if r.violated:
+                raise Infra("model error: %s violates %s in configuration %s\n%s" % (mod, r.violated, name, r.out[-3000:]))
+            run.add_mc("%s/%s" % (mod, name), r, c)
+            got = r.json_prints("pair")
+            for x in got:
+                x["cfg"] = name
+            cases += got
+            total += r.distinct
+        run.notes["structure_pairs_enumerated_by_tlc"] = total
+        run.notes["pairs_printed_by_tlc"] = len(cases)
+        run.exhaustive = True
+        if not cases:
+            raise Infra("OpticsComposeGen printed no pairs")
+        bnd = sorted([c for c in cases if c["boundary"]], key=lambda c: json.dumps([c["S"]["fields"], c["T"]["fields"]], sort_keys=True))
+        rest = sorted([c for c in cases if not c["boundary"]], key=lambda c: json.dumps([c["S"]["fields"], c["T"]["fields"]], sort_keys=True))
+        k = (400 if thorough else 60) - len(bnd)
+        if len(rest) > k:
+            rest = random.Random(run.seed).sample(rest, max(0, k))
+        cases = bnd + rest
+        for i, c in enumerate(cases):
+            c["sid"] = i + 1
+            c.pop("t", None)        # Go's decoder would take "t" for the field T
+    run.notes["pairs_compiled"] = len(cases)
+    groups = split(cases, 8 if thorough else 4)
+    pkgs, inputs, ninst, kinds = {}, {}, 0, {}
+    with Scratch() as d:
+        for gi, grp in enumerate(groups):
+            name = "optics_c04_%d" % gi
+            src, n = G.compose_package(name, grp, thorough)
+            ninst += sum(n.values())
+            for k, v in n.items():
+                kinds[k] = kinds.get(k, 0) + v
+            pkgs[name] = {"gen_test.go": src}
+            inputs[name] = os.path.join(d, name + ".in.jsonl")
+            with open(inputs[name], "w") as f:
+                for c in grp:
+                    f.write(json.dumps(c) + "\n")
+        bins, bt = build_packages(pkgs, d)
+        run.notes["go_build_s"] = round(bt, 1)
+        byid = {c["sid"]: c for c in cases}
+        stats = {}
+        for n, (p, recs) in run_packages(bins, inputs, d, env=dict(VERIF_TIER=run.tier, VERIF_SEED=run.seed)).items():
+            collect(run, n, p, recs, byid, stats, "optics")
+    run.notes["composed_optics_compiled"] = ninst
+    run.notes["composed_optics_by_kind"] = dict(sorted(kinds.items()))
+    for k in ("optics-lens", "optics-join", "optics-bimap", "optics-getter", "optics-setter", "optics-shape", "morphism-lists", "scripts", "script-steps"):
+        run.notes[k.replace("-", "_") + "_executed"] = stats.get(k, 0)
+    run.notes["transitions_executed"] = stats.get("transitions", 0)
+    run.traces += stats.get("transitions", 0) + stats.get("scripts", 0)
+    for c in cases[:2]:
+        run.sample({"S": G.render_struct(c["S"]["fields"]), "T": G.render_struct(c["T"]["fields"]),
+                    "optic": next((o for o in c["optics"] if o["kind"] == "join"), None)})
+
+
 # ----------------------------------------------------------------------------------------------- dispatcher
 def check(run, replay=None):
     if replay:
         return do_replay(run, replay)
-    return {"C03": check_c03, "C01": check_optics, "C02": check_optics}[run.pid](run)
+    return {"C03": check_c03, "C01": check_optics, "C02": check_optics, "C04": check_c04}[run.pid](run)
 
 
 def do_replay(run, path):
     rec = json.load(open(path))
     s = rec["payload"]["shape"]
     s["boundary"] = True
+    if run.pid == "C04":
+        return check_c04(run, cases=[s])
     return {"C03": check_c03, "C01": check_optics, "C02": check_optics}[run.pid](run, shapes=[s])
